@@ -188,7 +188,17 @@ func RunSSHs(x *Ctx) {
 	}
 	blob := cc.TakeWritten()
 	srv := &SSServer{KB: w.KB}
+	hour0 := time.Now().Unix() / 3600
+	heap0 := uint64(0)
 	padLen := rng.Intn(1309)
+	if c.Gen == "pad-boundary" {
+		// the legal server padding range is 0..1308: both ends, and the lengths whose response
+		// reaches past maxHandshakeLength-macLength (1293..1308), always; random otherwise
+		if c.A >= 0 && c.A < len(SSPadBoundaries) {
+			padLen = SSPadBoundaries[c.A]
+		}
+		heap0 = heapNow()
+	}
 	if c.Gen == "split-in-tail" {
 		padLen = 1 + (c.B % 1308) // F3 needs padding >= 1; vary the buffer size classes
 	}
@@ -205,18 +215,79 @@ func RunSSHs(x *Ctx) {
 		k := 1 + c.A%31
 		in, desc, isValid = resp, fmt.Sprintf("valid response (pad %d) split %d bytes before its end", padLen, k), true
 		c.Chunk = fmt.Sprintf("split:%d", len(resp)-k)
+	} else if c.Gen == "pad-boundary" {
+		// a conforming response followed by MORE traffic in the same stream: a long genuine packet
+		// stream, or megabytes of garbage
+		var more []byte
+		kind := "genuine packet stream"
+		scale := 1 // megabytes for the boundary lengths, a few hundred KB for the random ones
+		if c.A < 0 || c.A >= len(SSPadBoundaries) {
+			scale = 8
+		}
+		if c.B%2 == 0 {
+			more = srv.Payload(rng, rng.Bytes((1500000+rng.Intn(1000000))/scale))
+		} else {
+			more = rng.Bytes((2000000 + rng.Intn(2000000)) / scale)
+			kind = "garbage"
+		}
+		in = append(append([]byte(nil), resp...), more...)
+		desc = fmt.Sprintf("valid response with padding %d (%d bytes) followed by %d bytes of %s", padLen, len(resp), len(more), kind)
+		isValid = true
+		x.ValidLen = len(resp)
+		x.Boundaries = Boundaries(regions, len(resp))
+		if c.Cut == "reset" {
+			c.Cut = "eof"
+		}
 	} else {
 		in, desc, isValid = hsInput(x, rng, resp, nil, regions, 192, ssHsLens, 1532)
 	}
 	x.feed(cc, rng, in)
+	if c.Gen == "pad-boundary" {
+		c.Input = hexTrunc(resp, 4096) // the response; the megabytes that follow are derived from the seed
+		// whatever the handshake makes of it, the client must not be holding the stream: heap after
+		// GC, minus what is still queued inside the harness conn
+		x.Await(cc, call)
+		// (`in` itself is still referenced here, so its size is subtracted as well)
+		delta := int64(heapNow()) - int64(heap0) - int64(len(in)) - int64(cc.Pending())
+		x.R.Count(c.Prefix()+"/pad-boundary-heap-delta", SizeClass(int(max64(delta, 0))))
+		if delta > 3<<20 {
+			x.Violate("memory-retained", fmt.Sprintf("%s: the handshake holds on to the stream: heap grew by %d bytes (input copy and harness queue subtracted), consumed %d of %d", desc, delta, cc.Consumed(), cc.Fed()))
+		}
+	}
 	good := x.FinishHandshake(cc, call, HsOpts{ConsumedBound: B("ss-hs"), ClosesOnFail: true, Kind: "plain", ExpectSuccess: isValid && c.Cut != "reset"})
 	x.R.Count(c.Prefix()+"/outcome", x.Outcome)
 	x.R.Sample(3, map[string]interface{}{"case": c.Key(), "input": desc, "outcome": x.Outcome, "log": LogSummary(cc.Log())})
+	if c.Gen == "pad-boundary" {
+		x.R.Count(c.Prefix()+"/pad-boundary", fmt.Sprintf("pad-%s:%s", padClass(padLen), x.Outcome))
+		// a conforming response must complete the handshake (the MAC covers the epoch hour: skip the
+		// verdict if the hour changed under the case)
+		if !good && !x.Violated() && call.Panic == nil && hour0 == time.Now().Unix()/3600 {
+			x.Violate("conforming-handshake-not-completed", fmt.Sprintf("%s: Dial did not succeed (%s) although the whole conforming response had arrived; consumed %d bytes; log: %s", desc, x.Outcome, cc.Consumed(), LogSummary(cc.Log())))
+		}
+	}
 	if good {
 		ep := call.Res.(net.Conn)
 		cc.ScriptConn.FireDeadlines = true
-		x.ReadLoop(cc, ep, DataOpts{Buffered: ssBuffered(ep), Bound: B("ss-data"), ReadSize: 512, MaxReads: 2000})
+		o := DataOpts{Buffered: ssBuffered(ep), Bound: B("ss-data"), ReadSize: 512, MaxReads: 2000}
+		if c.Gen == "pad-boundary" {
+			o.ReadSize, o.MaxReads = 65536, 100000
+		}
+		x.ReadLoop(cc, ep, o)
 		ep.Close()
+	}
+}
+
+// SSPadBoundaries: server padding lengths always exercised by the generator "pad-boundary".
+var SSPadBoundaries = []int{0, 1, 1292, 1293, 1307, 1308}
+
+func padClass(n int) string {
+	switch {
+	case n <= 1:
+		return fmt.Sprint(n)
+	case n < 1292:
+		return "2-1291"
+	default:
+		return fmt.Sprint(n)
 	}
 }
 
